@@ -308,6 +308,54 @@ func enumerate(shard, nshards int, yield func(Case)) {
 			}
 		}
 	}
+	// an external reference of every kind, from a document whose components section has none of that
+	// kind yet (nothing, or exactly one other kind): internalising has to create the map it files it under
+	{
+		extRefs := map[string]string{"schemas": "A", "parameters": "P", "headers": "H", "requestBodies": "RB", "responses": "R", "examples": "E", "links": "L", "callbacks": "CB"}
+		stub := map[string]M{"schemas": {"S0": M{"type": "string"}}, "parameters": {"Q": M{"name": "q", "in": "query", "schema": M{"type": "string"}}}, "headers": {"HH": M{"schema": M{"type": "string"}}},
+			"requestBodies": {"B0": M{"content": M{"application/json": M{"schema": M{"type": "string"}}}}}, "responses": {"R0": M{"description": "d"}}, "examples": {"E0": M{"value": 1.0}},
+			"links": {"L0": M{"operationId": "x"}}, "callbacks": {"C0": M{"{$u}": M{"get": M{"responses": M{"200": M{"description": "d"}}}}}}, "securitySchemes": {"K0": M{"type": "http", "scheme": "basic"}}}
+		for _, kind := range jv.Keys(anyMapM(map[string]M{"schemas": nil, "parameters": nil, "headers": nil, "requestBodies": nil, "responses": nil, "examples": nil, "links": nil, "callbacks": nil})) {
+			for _, other := range append([]string{""}, jv.Keys(anyMapM(stub))...) {
+				if other == kind {
+					continue
+				}
+				idx++
+				if idx%nshards != shard {
+					continue
+				}
+				ref := M{"$ref": "aux.json#/components/" + kind + "/" + extRefs[kind]}
+				resp := M{"description": "d"}
+				op := M{"responses": M{"200": resp}}
+				switch kind {
+				case "schemas":
+					resp["content"] = M{"application/json": M{"schema": ref}}
+				case "parameters":
+					op["parameters"] = []any{ref}
+				case "headers":
+					resp["headers"] = M{"h": ref}
+				case "requestBodies":
+					op["requestBody"] = ref
+				case "responses":
+					op["responses"] = M{"200": ref}
+				case "examples":
+					resp["content"] = M{"application/json": M{"examples": M{"e": ref}}}
+				case "links":
+					resp["links"] = M{"l": ref}
+				case "callbacks":
+					op["callbacks"] = M{"cb": ref}
+				}
+				d := M{"openapi": "3.0.3", "info": M{"title": "t", "version": "1"}, "paths": M{"/x": M{"post": op}}}
+				if other != "" {
+					d["components"] = M{other: stub[other]}
+				}
+				b, _ := json.Marshal(d)
+				// (the shared auxiliary document refers back to a root component these roots do not have)
+				plain := strings.Replace(auxDoc, `,"back":{"$ref":"root.json#/components/schemas/S0"}`, "", 1)
+				yield(Case{Files: map[string][]byte{"/w/root.json": b, "/w/aux.json": []byte(plain)}, Root: "/w/root.json", Entry: "datawithpath", AllowExt: true})
+			}
+		}
+	}
 	for i, files := range extCycles {
 		for _, entry := range []string{"uri", "datawithpath"} {
 			idx++
